@@ -58,6 +58,7 @@ func c06Spec(r *rand.Rand, m c06Mode, prefix string, flavour string, profile str
 		{Name: "WithRefreshTokenGrant", Z: 1000},
 		{Name: "WithPAR", Z: 60},
 		{Name: "WithCIBAGrant"},
+		{Name: "WithJWTBearerGrant"},
 	}
 	if r.Intn(2) == 0 {
 		opts = append(opts, Opt{Name: "WithRefreshTokenRotation"})
@@ -87,7 +88,7 @@ func c06Spec(r *rand.Rand, m c06Mode, prefix string, flavour string, profile str
 	r.Shuffle(len(opts), func(i, j int) { opts[i], opts[j] = opts[j], opts[i] })
 	allResp := []string{"code", "token", "id_token", "id_token token", "code id_token", "code token", "code id_token token"}
 	clients := []ClientSpec{
-		{ID: 1, Grants: []string{"authorization_code", "refresh_token", "client_credentials", "implicit"}, RespTypes: allResp,
+		{ID: 1, Grants: []string{"authorization_code", "refresh_token", "client_credentials", "implicit", jwtBearerGrant}, RespTypes: allResp,
 			Redirects: []string{"https://c1.example/cb"}, Scopes: "openid email profile offline_access", DpopReq: m.CDpop, TLSReq: m.CTLS},
 		{ID: 2, Grants: []string{"authorization_code", "refresh_token", "client_credentials"}, RespTypes: []string{"code"},
 			Redirects: []string{"https://c2.example/cb"}, Scopes: "openid email", JWT: true},
@@ -255,6 +256,25 @@ func (h *c06Hist) entryCC(devs []c06Dev, client int) {
 		o := h.g.do(Op{Kind: "Token", Grant: "client_credentials", Cred: h.cred(client), Scope: "openid email", HG: "HgOk", BA: "BaApprove", Bind: h.dev(d, 0)})
 		if o.Kind == "Tokens" {
 			h.introspect(o.At)
+		}
+	}
+}
+
+// jwt-bearer: for client 1 (its registration may require a binding) or for nobody (the anonymous client, which
+// requires nothing: only the server's requirements apply)
+func (h *c06Hist) entryJwtBearer(devs []c06Dev, client int) {
+	h.otherToken()
+	for _, d := range devs {
+		op := Op{Kind: "Token", Grant: jwtBearerGrant, Scope: "openid email", Assertion: "ok:alice", HG: "HgOk", BA: "BaApprove", Bind: h.dev(d, 0)}
+		if client != 0 {
+			op.Cred = h.cred(client)
+		}
+		o := h.g.do(op)
+		if o.Kind == "Tokens" {
+			h.introspect(o.At)
+			if o.Rt != 0 {
+				h.introspect(o.Rt)
+			}
 		}
 	}
 }
